@@ -10,5 +10,6 @@ CONSTANTS
   MCWrites = 1
   MCPauses = 1
   MCPanics = {FALSE, TRUE}
+  MCGoAway = TRUE
 INVARIANTS NoViolation HandlerBound CtlBound StreamLimit QuiescentOK NeverHandled
 CHECK_DEADLOCK FALSE
